@@ -120,6 +120,18 @@ main (void)
           dbus_connection_send (srv, r, NULL); dbus_connection_flush (srv); dbus_message_unref (r);
           printf ("ok\n");
         }
+      else if (!strcmp (cmd, "peer-signal") && n == 3)
+        {
+          /* not a reply at all, but it carries the call's serial in REPLY_SERIAL: libdbus pairs messages with pending calls by
+           * that field alone */
+          DBusMessage *r; dbus_int32_t tag = (dbus_int32_t) b;
+          if (a < 0 || a >= ncalls) { printf ("bad-op\n"); continue; }
+          r = dbus_message_new_signal ("/p", "v.I", "S");
+          dbus_message_set_reply_serial (r, serials[a]);
+          dbus_message_append_args (r, DBUS_TYPE_INT32, &tag, DBUS_TYPE_INVALID);
+          dbus_connection_send (srv, r, NULL); dbus_connection_flush (srv); dbus_message_unref (r);
+          printf ("ok\n");
+        }
       else if (!strcmp (cmd, "peer-stray") && n == 3)
         {
           DBusMessage *r = dbus_message_new (DBUS_MESSAGE_TYPE_METHOD_RETURN); dbus_int32_t tag = (dbus_int32_t) b;
